@@ -3,7 +3,7 @@
 # Applies a seeded change to /repo, runs the given checks (quick tier), prints
 # one line per check and ALWAYS restores /repo afterwards.  Never commits.
 set -u
-patch="$1"; shift
+patch="$(realpath "$1")"; shift
 props=()
 extra=()
 while [ $# -gt 0 ]; do
